@@ -360,6 +360,296 @@ def classify(ctx, t, state):
         return
 
 
+
+# ------------------------------------------------------------------------------------------------
+# CONTEXT SWEEP.  For the highlighter "context" is the state of the shell it consults and of the line editor:
+#   * the SAME line highlighted again and again in ONE shell while its state changes between the calls (alias defined /
+#     removed, function defined / removed, `shopt -u/-s extglob`, `set -o/+o posix`, PATH so that the command word is
+#     found / not found, cwd so that a path word exists / does not) — warm tokenizer / word-parser caches;
+#   * every state also reached COLD (a fresh shell in another process that never saw the line);
+#   * every byte offset 0..=len as cursor, including offsets inside multi-byte characters;
+#   * multi-line buffers: every PREFIX of generated valid scripts (prefix closure);
+#   * very long lines (10^4..10^5 chars) and deep nesting, for time.
+# In every state the tiling predicate must hold on brush's spans, brush == model on the tree of that state, the answer must be
+# a function of (line, state) only (warm == cold, same state twice == same answer), and the span RANGES must not depend on
+# cursor / aliases / functions / PATH / cwd at all (theorem `ranges_depend_only_on_geometry`): only the parser's option
+# flags (extglob, posix) may move a boundary.
+
+STEPSEP = " %# "
+# (label, ops applied before this step's highlight, parser options are the default ones, same state as step 0)
+SWEEP_STEPS = [
+    ("fresh", [], True, True),
+    ("alias_defined", ["alias+"], True, False),
+    ("alias_removed_function_defined", ["alias-", "func+"], True, False),
+    ("function_removed", ["func-"], True, True),
+    ("extglob_off", ["extglob-"], False, False),
+    ("extglob_on_posix_on", ["extglob+", "posix+"], False, False),
+    ("posix_off", ["posix-"], True, True),
+    ("path_finds_name", ["path+"], True, False),
+    ("path_empty", ["path0"], True, False),
+    ("path_restored_cwd_has_files", ["path=", "cd+"], True, False),
+    ("cwd_root", ["cd-"], True, False),
+]
+NAME_RE = re.compile(r"^[A-Za-z_][A-Za-z0-9_]*$")
+STATEFUL_ARGS = ["./x", "sub/x", "é", "?(a)", "!(x|y)", "@(a|b)c", "+(é)", "-opt", "'q'", "\"$(%s ./x)\"", "`%s`", "| %s", "; %s -l",
+                 "&& ./x", "$(%s)", "~", "~/x", "a=(1 2)", "x=1", "[[ a == @(a) ]]", "# é", "<(%s)", "/bin/sh", "sub/x/../x", "\\\n%s",
+                 "${v:-./x}", "$((1+2))", "*(", "?(", "🚀"]
+
+
+def sweep_name(line):
+    w = line.strip().split(" ")[0].split("\n")[0] if line.strip() else ""
+    return w if NAME_RE.match(w) else "zzcmd"
+
+
+def gen_stateful(rng):
+    name = rng.choice(["zzcmd", "ls", "x", "mytool", "echo", "for", "é"])
+    parts = [rng.choice(["", "", "x=1 ", "  "]) + name]
+    for _ in range(rng.randint(0, 4)):
+        a = rng.choice(STATEFUL_ARGS)
+        parts.append(a % name if "%s" in a else a)
+    return " ".join(parts)
+
+
+def ranges_of(shown):
+    if shown.startswith("PANIC") or shown.startswith("HANG"):
+        return shown
+    return [(a, b) for a, b, _ in parse_spans(shown)[0]]
+
+
+def context_sweep(ctx, state, pool):
+    rng = ctx.rng
+    n = ctx.size(600, 9000)
+    lines = []
+    seen = set()
+    for l in corpus_lines():
+        lines.append(l)
+    for _ in range(n // 3):
+        lines.append(gen_stateful(rng))
+    while len(lines) < n and pool:
+        lines.append(rng.choice(pool))
+    lines = [l for l in lines if not (l in seen or seen.add(l)) and len(l.encode("utf-8")) <= 400]
+    seq_reqs, cold_reqs = [], []
+    for l in lines:
+        nm = sweep_name(l)
+        ops = []
+        for j, (_, o, _, _) in enumerate(SWEEP_STEPS):
+            ops += o
+            cold_reqs.append((j, "S %s %s %s H" % (esc(l), esc(nm), " ".join(ops)) if ops else "S %s %s H" % (esc(l), esc(nm))))
+        seq_reqs.append("S %s %s %s" % (esc(l), esc(nm), " ".join(" ".join(o + ["H"]) for _, o, _, _ in SWEEP_STEPS)))
+    # cold requests step-major, so that one process never sees a line twice
+    order = sorted(range(len(cold_reqs)), key=lambda i: (cold_reqs[i][0], i))
+    resp, _ = run_requests(seq_reqs + [cold_reqs[i][1] for i in order])
+    seq_resp = [r[0] if r else "DIED" for r in resp[:len(seq_reqs)]]
+    cold_resp = [None] * len(cold_reqs)
+    for k, i in enumerate(order):
+        r = resp[len(seq_reqs) + k]
+        cold_resp[i] = r[0] if r else "DIED"
+    nst = len(SWEEP_STEPS)
+    ties = []          # (line index, step index, Tie)
+    for li, (l, sr) in enumerate(zip(lines, seq_resp)):
+        if sr.startswith("HANG") or sr.startswith("DIED"):
+            t = Tie(l, sr)
+            classify(ctx, t, state)
+            continue
+        steps = sr.split(STEPSEP)
+        if len(steps) != nst:
+            ctx.broken.append("context sweep: %d steps answered for %r, expected %d" % (len(steps), l, nst))
+            continue
+        for j, st in enumerate(steps):
+            ties.append((li, j, Tie(l, st)))
+    live = [t for _, _, t in ties if not t.tree.startswith("TREEPANIC")]
+    for t, m in zip(live, lib.run_drv_parallel([t.drv_request() for t in live])):
+        t.set_model(m)
+    first = {}
+    for li, j, t in ties:
+        l = t.line
+        label, _, dflt, same_as_fresh = SWEEP_STEPS[j]
+        ncur = max(1, len(t.brush))
+        ctx.count(("sweep", l, j), nontrivial=len(l) >= 2, bucket="sweep_" + label)
+        ctx.evals += ncur - 1
+        ctx.impl_validated += ncur
+        nv = state["n"][0]
+        classify(ctx, t, state)                      # the predicate + brush == model, in this state, every byte cursor
+        if state["n"][0] != nv:
+            continue
+        case = {"line": l, "state": label, "ops": [o for _, ops, _, _ in SWEEP_STEPS[:j + 1] for o in ops]}
+        # (a) warm == cold: the answer is a function of (line, state), not of what the caches saw before
+        cold = cold_resp[li * nst + j]
+        if cold != t.hresp:
+            c2 = Tie(l, cold) if not (cold.startswith("HANG") or cold.startswith("DIED")) else None
+            diff = next((c for c in sorted(t.brush) if c2 is None or c2.brush.get(c) != t.brush[c]), None)
+            case.update({"cursor": diff, "brush": t.brush.get(diff) if diff is not None else t.tree,
+                         "brush_cold": (c2.brush.get(diff) if c2 and diff is not None else cold[:300])})
+            state["viol"](ctx, "the same line in the same shell state is highlighted differently after the shell went through other "
+                          "states than in a fresh shell (stale cache / leaked state)", case, "property")
+            continue
+        # (b) ranges do not depend on the cursor …
+        rs = {c: ranges_of(s) for c, s in t.brush.items()}
+        r0 = rs[min(rs)]
+        bad = next((c for c in sorted(rs) if rs[c] != r0), None)
+        if bad is not None and not any(isinstance(v, str) for v in rs.values()):
+            case.update({"cursor": bad, "brush": t.brush[bad], "brush_cursor0": t.brush[min(rs)]})
+            state["viol"](ctx, "span boundaries depend on the cursor position", case, "property")
+            continue
+        # (c) … nor on aliases / functions / PATH / cwd: every default-option step has the ranges of step 0,
+        #     and a state reached twice gives the identical answer (kinds included)
+        if j == 0:
+            first[li] = t
+        elif li in first:
+            f = first[li]
+            if dflt and not isinstance(r0, str) and ranges_of(f.brush[min(f.brush)]) != r0:
+                case.update({"cursor": min(rs), "brush": t.brush[min(rs)], "brush_fresh": f.brush[min(f.brush)]})
+                state["viol"](ctx, "span boundaries changed with shell state that the tokenizer does not take (alias/function/PATH/cwd)",
+                              case, "property")
+            elif same_as_fresh and f.hresp != t.hresp:
+                diff = next((c for c in sorted(t.brush) if f.brush.get(c) != t.brush[c]), None)
+                case.update({"cursor": diff, "brush": t.brush.get(diff), "brush_fresh": f.brush.get(diff)})
+                state["viol"](ctx, "back in the initial shell state the line is highlighted differently than at first", case, "property")
+            elif not same_as_fresh and dflt and f.hresp != t.hresp:
+                ctx.bucket("sweep_kinds_changed_with_state")
+    ctx.bucket("sweep_lines", len(lines))
+    return len(lines)
+
+
+SCRIPT_STMTS = [
+    "echo \"héllo $USER\" # commentaire é\n",
+    "cat <<EOF\nbody $(date) é\nEOF\n",
+    "cat <<-'E' | tr a b\n\tlit $x\n\tE\n",
+    "for f in *.txt; do\n  echo \"$f\" \\\n    --long-opt\ndone\n",
+    "x=$(( 1 + $[2*3] ))\n",
+    "y=$(echo $(echo $(echo deep \"q $(date)\")))\n",
+    "if [[ $a == @(x|y) ]]; then echo `uname -s`; fi\n",
+    "f() { local v='single é'; printf '%s\\n' \"${v:-def}\" ; }\n",
+    "case $x in a) echo 1;; *) echo $'t\\tq';; esac\n",
+    "echo ${arr[@]:1:2} ${#s} ${s/é/e} ~/dir ~+\n",
+    "ls | grep x && echo ok || echo 'no' > /dev/null 2>&1 &\n",
+    "# 日本語 コメント 🚀\n",
+    "while read -r l; do :; done < <(printf 'a\\nb\\n')\n",
+    "echo \"multi\nline é\nstring\" 'and\nsingle'\n",
+    "arr=(a \"b c\" $(ls) [5]=x)\n",
+    "echo $\"gettext é\" $'\\u00e9' \\\n\t$(( $(echo 1) + `echo 2` ))\n",
+    "( cd /tmp && { echo a; echo b; } | sort ) 2>&1 | tee log\n",
+    "select i in a b; do break; done; until false; do break; done\n",
+    "echo a\\\nb\\\nc # continuation inside a word\n",
+    "\n\n   \t\n",
+]
+
+
+def prefix_closure(ctx, state):
+    """every prefix of generated valid multi-line scripts must tile (an editor buffer while a script is typed / pasted)"""
+    rng = ctx.rng
+    scripts = []
+    for _ in range(ctx.size(40, 900)):
+        parts = []
+        for _ in range(rng.randint(2, 6)):
+            r = rng.random()
+            parts.append(rng.choice(SCRIPT_STMTS) if r < 0.85 else gen_line(rng) + "\n")
+        scripts.append("".join(parts))
+    resp, hangs = run_requests(["X " + esc(s) for s in scripts], watchdog_ms=WD_CONFIRM)
+    rejected, sample = [], []
+    nprefix = ncalls = 0
+    for s, r in zip(scripts, resp):
+        ctx.count(("script", s), bucket="prefix_scripts")
+        o = r[0] if r else "DIED"
+        head = o.split(" ")
+        if not head[0].startswith("n="):
+            t = Tie(s, o)       # HANG / DIED on some prefix
+            m = re.match(r"HANG (\S+) ", o)
+            if m:
+                t = Tie(unesc(m.group(1)), "HANG %s tree" % m.group(1))
+            classify(ctx, t, state)
+            continue
+        nprefix += int(head[0][2:])
+        ncalls += int(head[1][6:])
+        data = s.encode("utf-8")
+        for ent in head[3:]:
+            cut = int(ent.split("\t")[0])
+            rejected.append(data[:cut].decode("utf-8"))
+        for _ in range(ctx.size(4, 12)):
+            sample.append(s[:rng.randint(0, len(s))])
+    ctx.evals += ncalls
+    ctx.impl_validated += ncalls
+    ctx.bucket("prefix_closure_prefixes", nprefix)
+    seen = set()
+    todo = [l for l in rejected + sample if not (l in seen or seen.add(l))]
+    nrej = len(set(rejected))
+    for t in tie_lines(ctx, todo):
+        ctx.count(("prefix", t.line), bucket="prefix_rejected" if t.line in set(rejected) else "prefix_sampled")
+        classify(ctx, t, state)
+    return nprefix, nrej
+
+
+def nest_depth(line):
+    d = m = 0
+    for ch in line:
+        if ch in "({":
+            d += 1
+            m = max(m, d)
+        elif ch in ")}":
+            d = max(0, d - 1)
+    return m
+
+
+T_LIMIT_S = 20.0     # one call on a line of <= 10^5 chars, nesting <= 1000 (measured: <= 1.2 s)
+
+
+def long_lines(ctx, state):
+    def shapes(n):
+        return {
+            "word": "a" * n, "words": "echo " + "ab " * (n // 3), "squote": "echo '" + "x" * n + "'",
+            "dquote_params": 'echo "' + "$x " * (n // 3) + '"', "comment_mb": "# " + "é" * (n // 2),
+            "arith": "echo $((" + "1+" * (n // 2) + "1))", "pipes": "a|" * (n // 2) + "a",
+            "heredoc_open": "cat <<E\n" + "line\n" * (n // 5), "continuations": "echo " + "a\\\n" * (n // 3),
+            "rockets": "echo " + "\U0001F680" * (n // 4), "newlines": "a\n" * (n // 2), "params": "echo " + "${x:-y} " * (n // 8),
+            "cmdsubs": "echo " + "$(a) " * (n // 5), "backq": "echo " + "`a` " * (n // 4), "escapes": "echo " + "\\a" * (n // 2),
+            "braces": "echo " + "{a,b}" * (n // 5),
+            "script": "for f in *.txt; do\n  echo \"$f é\" \\\n    --long $(date) # c\ndone\n" * (n // 60),
+        }
+
+    def nests(k):
+        return {
+            "nest_cmdsub": "echo " + "$(a " * k + ")" * k, "nest_cmdsub_open": "echo " + "$(a " * k,
+            "nest_paren": "(" * k + "a" + ")" * k, "nest_dq_cmdsub": "echo " + '"$(a ' * k + ')"' * k,
+            "nest_param": "echo " + "${x:-" * k + "}" * k, "nest_arith": "echo $((" + "(" * k + "1" + ")" * k + "))",
+            "nest_brace": "{ " * k + "a" + "; }" * k, "nest_legacy_arith": "echo " + "$[1+" * k + "1" + "]" * k,
+            "nest_subscript": "echo $((" + "a[" * k + "1" + "]" * k + "))",
+        }
+    cases = [("%s_1e4" % k, v) for k, v in shapes(10000).items()]
+    big = shapes(100000)
+    cases += [("%s_1e5" % k, big[k]) for k in (big if not ctx.quick else ["words", "cmdsubs", "script", "pipes"])]
+    for k in ((20, 300) if ctx.quick else (20, 100, 300, 1000)):
+        cases += [("%s_%d" % (nm, k), v) for nm, v in nests(k).items()]
+    cases.append(("nest_param_4000", nests(4000)["nest_param"]))        # beyond the recursion the parsers survive
+
+    def one(c):
+        rc, out, err = lib.run_vh(BIN, ["T " + esc(c[1])], env={"C19_WATCHDOG_MS": str(int(T_LIMIT_S * 2000))})
+        return rc, (out[0] if out else ""), err[-200:]
+    worst = (0.0, "")
+    for (nm, line), (rc, o, err) in zip(cases, lib.pmap(one, cases, workers=8)):
+        ctx.count(("long", nm), bucket="long_lines")
+        ctx.impl_validated += 1
+        case = {"line_shape": nm, "line_chars": len(line), "line": line if len(line) <= 300 else line[:120] + " … " + line[-60:],
+                "harness": o or err.strip()}
+        m = re.match(r"us=(\d+) ok=(\d) nspans=(\d+)", o)
+        if not m:
+            if "overflowed its stack" in err and nest_depth(line) >= 1000:
+                known(ctx, "deep_nesting_stack_overflow", "the highlighter overflows the stack and the process aborts", case)
+            elif rc == 3:
+                state["viol"](ctx, "one highlight call takes more than %.0f s" % (T_LIMIT_S * 2), case, "property")
+            else:
+                state["viol"](ctx, "the highlighter crashed the process (rc %s): %s" % (rc, err.strip()[-120:]), case, "property")
+            continue
+        secs = int(m.group(1)) / 1e6
+        if secs > worst[0]:
+            worst = (secs, nm)
+        if m.group(2) != "1":
+            state["viol"](ctx, "spans of a long line do not tile it", case, "property")
+        elif secs > T_LIMIT_S:
+            state["viol"](ctx, "one highlight call takes %.1f s" % secs, case, "property")
+    ctx.notes.append("long lines: slowest call %.2f s (%s)" % worst)
+    return len(cases)
+
+
 def run(ctx):
     ok, out = lib.cargo_build([BIN])
     if not ok:
@@ -374,7 +664,7 @@ def run(ctx):
         if nviol[0] < 25:
             ctx.violation(what, case, kind=kind)
         nviol[0] += 1
-    state = {"viol": viol}
+    state = {"viol": viol, "n": nviol}
     rng = ctx.rng
 
     # ---- 1. exhaustive enumeration in the harness: the predicate on brush's spans, every cursor ----
@@ -479,6 +769,17 @@ def run(ctx):
         if t.tree and " F" in t.tree:
             ctx.bucket("has_tokenizer_failure")
         classify(ctx, t, state)
+    # ---- 3. context sweep: shell state, byte cursors, prefix closure, long lines ----
+    import time as _t
+    t0 = _t.time()
+    pool = [l for l, k in zip(lines, kinds) if k in ("grammar", "mutated", "rand")]
+    nsw = context_sweep(ctx, state, pool)
+    t1 = _t.time()
+    npre, nrej = prefix_closure(ctx, state)
+    t2 = _t.time()
+    nlong = long_lines(ctx, state)
+    ctx.notes.append("context sweep: %d lines x %d shell states warm+cold %.1fs; prefix closure: %d prefixes (%d rejected) %.1fs; "
+                     "long lines: %d shapes %.1fs" % (nsw, len(SWEEP_STEPS), t1 - t0, npre, nrej, t2 - t1, nlong, _t.time() - t2))
     if nviol[0] > 25:
         ctx.notes.append("%d violations in total, first 25 recorded" % nviol[0])
     for i in (len(ties) // 3, len(ties) // 2, len(ties) - 1):
@@ -491,8 +792,12 @@ def run(ctx):
                        "tree rebuilt from tokenize_str_with_options / word::parse, every cursor, predicate re-evaluated in python): "
                        "corpus, all lines of length <= %d, seeded random lines to length 8, grammar-generated lines (quotes, "
                        "expansions, nested substitutions, arithmetic, here-documents, comments, continuations, multi-byte), "
-                       "mutated/truncated lines, and every line rejected in (1); non-trivial = at least 2 chars; distinct by line"
-                       % (maxlen, len(ALPHA), ALPHA, small))
+                       "mutated/truncated lines, and every line rejected in (1); (3) context sweep: a seeded sample of those lines plus "
+                       "state-sensitive lines, each highlighted in one shell through %d states (alias/function defined and removed, "
+                       "extglob off, posix on, PATH finding/not finding the command, cwd with/without the path words) and cold in a "
+                       "fresh process per state, every byte offset as cursor; every prefix of generated multi-line scripts; "
+                       "lines of 10^4..10^5 chars and nesting to depth 1000 for time; non-trivial = at least 2 chars; distinct by line"
+                       % (maxlen, len(ALPHA), ALPHA, small, len(SWEEP_STEPS)))
     ctx.assumptions += ["the tokenizer's and the word parser's output is an input of the model (hypothesis wfProg / trap of the "
                         "theorems, evaluated on every generated line), not modelled",
                         "command classification (keyword/alias/function/builtin/PATH lookup) is read from the shell through the same "
@@ -510,6 +815,34 @@ def replay(ctx, rp):
         print(json.dumps(rp, indent=1, ensure_ascii=False))
         return 1
     ok2, _ = lib.lake_build(["drv"])
+    if case.get("ops") is not None and "state" in case:
+        # a context-sweep case: the line in one shell through the states, and cold in the failing state
+        j = next(i for i, st in enumerate(SWEEP_STEPS) if st[0] == case["state"])
+        nm = sweep_name(line)
+        seq = "S %s %s %s" % (esc(line), esc(nm), " ".join(" ".join(o + ["H"]) for _, o, _, _ in SWEEP_STEPS[:j + 1]))
+        ops = [o for _, os_, _, _ in SWEEP_STEPS[:j + 1] for o in os_]
+        cold = "S %s %s %s H" % (esc(line), esc(nm), " ".join(ops))
+        _, o1, _ = lib.run_vh(BIN, [seq])
+        _, o2, _ = lib.run_vh(BIN, [cold])
+        warm = (o1[0].split(STEPSEP)[-1] if o1 else "<none>")
+        coldr = o2[0] if o2 else "<none>"
+        print("line:  %r" % line)
+        print("state: %s (ops %s)" % (case["state"], " ".join(ops)))
+        print("brush, after going through the earlier states: %s" % warm)
+        print("brush, fresh shell put into that state:        %s" % coldr)
+        t = Tie(line, warm)
+        bad = 0 if warm == coldr else 1
+        for c in sorted(t.brush):
+            why = property_fails(line, t.brush[c])
+            if why:
+                print("property on brush (cursor %d): %s" % (c, why))
+                bad = 1
+                break
+        print("same answer in the same state: %s" % (warm == coldr))
+        return bad
+    if "line_shape" in case:
+        print(json.dumps(case, indent=1, ensure_ascii=False)[:1500])
+        return 1
     really = confirm_hangs([line])
     if really:
         print("line:  %r" % line)
